@@ -79,6 +79,7 @@ ResyncPlanOk(t) ==
         /\ (plan[i].k = "flags" => plan[i].n \in {1, 2})
         /\ (plan[i].k = "frame" => /\ WellFormedItem(plan[i]) /\ plan[i - 1].k = "flags" /\ plan[i + 1].k = "flags")
   /\ \A i, j \in 1..Len(fr) : i # j => fr[i] # fr[j]
+  /\ (~cfg.stuffing => \A i \in 1..Len(fr) : ~Has(fr[i], FLAG))     \* DESIGN 8-9: without stuffing the clean suffix is flag-free
   /\ \A r \in 1..Len(t.runs) : Fed(t.runs[r]) = PlanWire(cfg, plan)
 Required(t) ==
   LET cfg == Cfg(t) plan == t.plan ne == NoiseEnd(plan) off == Offsets(cfg, plan)
